@@ -42,6 +42,18 @@ Fixpoint find_close (s : bytes) (acc : bytes) : option (bytes * bytes) :=   (* u
   end.
 Definition esc_t1 (c : byte) : bytes :=
   if beq c x26 then bs "&amp;" else if beq c x3c then bs "&lt;" else if beq c x3e then bs "&gt;" else [c].
+(* inside a copied expression a "<" that would open a tag, end tag, comment or processing instruction is
+   written as a reference (an expression that holds a decodable character reference is re-encoded too;
+   that rule needs the table of named references and is outside the model) *)
+Definition tag_start (c : byte) : bool := is_alpha c || beq c x2f || beq c x21 || beq c x3f.
+Fixpoint esc_must (s : bytes) : bytes :=
+  match s with
+  | a :: r => match r with
+              | b :: _ => if beq a x3c && tag_start b then bs "&lt;" ++ esc_must r else a :: esc_must r
+              | [] => [a]
+              end
+  | [] => []
+  end.
 Fixpoint esc_text (fuel : nat) (s : bytes) : bytes :=
   match fuel with O => [] | S f =>
   match s with
@@ -51,7 +63,7 @@ Fixpoint esc_text (fuel : nat) (s : bytes) : bytes :=
       | b :: r' =>
           if beq a x7b && beq b x7b then
             match find_close r' [] with
-            | Some (inside, rest) => [x7b; x7b] ++ inside ++ [x7d; x7d] ++ esc_text f rest
+            | Some (inside, rest) => esc_must ([x7b; x7b] ++ inside ++ [x7d; x7d]) ++ esc_text f rest
             | None => esc_t1 a ++ esc_text f r
             end
           else esc_t1 a ++ esc_text f r
